@@ -17,8 +17,8 @@ const SPEC: Spec = Spec {
         "the padding reference implements the standard integer padding rules and is validated at start-up against i128/u128 formatting for every spec",
         "refint Horner evaluation is trusted; cross-checked against Python on a transcript slice",
     ],
-    bounds_quick: "V1 every integer < 65536 x radix 2..=36 (text) and 2..=256 (digits); V2 Dense(S5,3) x all radices; V3 r^k-1,r^k,r^k+1 for k <= 3*power(r)+2 and at 62..66 / 127..130 native digits, all radices 2..=36 text and 2..=256 digits; V4 12 patterns x every length 1..=70 and {100,129,257} x all radices; V6 dense LCG values of every length 1..=70; V5 big-base powers, all radices; F 224 specs x 6 traits x 16 values; P1 all strings of length <= 5 over 12 symbols (+bytes <= 4 over 14 byte values); P2 well-formed long inputs, all radices 2..=36; P3 all radices 2..=256",
-    bounds_thorough: "V1 every integer < 2^18; V2; V3 also at 255..258 and 400 native digits; V4 30 lengths up to 1025 (every sqrt boundary of the big-base target length); V5; F; P1 length <= 6 (bytes <= 5); P2; P3",
+    bounds_quick: "V1 every integer < 65536 x radix 2..=36 (text) and 2..=256 (digits); V2 Dense(S5,3) x all radices; V3 r^k-1,r^k,r^k+1 for k <= 3*power(r)+2 and at 62..66 / 127..130 native digits, all radices 2..=36 text and 2..=256 digits; V4 12 patterns x every length 1..=70 and {100,129,257} x all radices; V6 dense LCG values of every length 1..=70; V5 big-base powers, all radices; F 224 specs x 6 traits x 16 values; P1 all strings of length <= 5 over 12 symbols (+bytes <= 4 over 14 byte values); P2 well-formed long inputs, all radices 2..=36; P3 all radices 2..=256; V7 values of 300 and 1100 native digits (dense, all-ones, power of two) x 12 radices",
+    bounds_thorough: "V1 every integer < 2^18; V2; V3 also at 255..258 and 400 native digits; V4 30 lengths up to 1025 (every sqrt boundary of the big-base target length); V5; F; P1 length <= 6 (bytes <= 5); P2; P3; V7 up to 4099 digits",
     hang_secs: 180,
     probes: Some(probes),
     max_workers: 16,
@@ -529,6 +529,33 @@ fn body(ctx: &mut Ctx) {
             }
             if l == 65 {
                 ctx.sample(|| "dense LCG values of 65 native digits: every text radix, digit radices, round trips".to_string());
+            }
+        }
+    }
+    // V7: long values (hundreds to thousands of native digits: many chunks of the big-base paths)
+    if ctx.space("V7") {
+        let lens: Vec<usize> = tier.pick(vec![300, 1100], vec![300, 1100, 2100, 4099]);
+        let mut o = 0u64;
+        for &l in &lens {
+            for shape in 0..3 {
+                let take = ctx.mine(o);
+                o += 1;
+                if !take {
+                    continue;
+                }
+                let d: Vec<u64> = match shape {
+                    0 => alpha::lcg_digits(l, 77),
+                    1 => vec![alpha::M; l],
+                    _ => {
+                        let mut v = vec![0u64; l];
+                        v[l - 1] = 1;
+                        v
+                    }
+                };
+                let v = Nat::from_digits(&d);
+                out_value(ctx, &Int::new(false, v.clone()), &[2, 3, 8, 10, 16, 32, 36], &[7, 100, 128, 255, 256]);
+                out_value(ctx, &Int::new(true, v), &[10, 32], &[]);
+                ctx.sample(|| format!("{}-digit value (shape {}) through radices 2,3,8,10,16,32,36 (text) and 7,100,128,255,256 (digits), round trips", l, shape));
             }
         }
     }
